@@ -175,13 +175,18 @@ impl HistCfg {
         if kind % 3 == 2 {
             // one batch deeper than the pruning window, every block with commitments except the
             // blocks on the retention grid
-            c.nu6_3 = true;
+            // (with the upgrade inactive in a third of them: no retention grid, but blocks whose only
+            // commitments are in ANOTHER pool still get a synthesised checkpoint)
+            c.nu6_3 = kind % 9 != 8;
             c.nu6_3_late = 0;
-            c.retention = Some(rng.gen_range(8..20));
+            c.retention = if c.nu6_3 { Some(rng.gen_range(8..20)) } else { None };
             c.initial_len = rng.gen_range(120..150);
-            c.empty_on_grid = true;
+            c.empty_on_grid = c.nu6_3;
             c.initial_one_batch = true;
-            c.pools.truncate(rng.gen_range(1..=2));
+            if !c.nu6_3 {
+                c.pools = vec![Pool::Sapling, Pool::Orchard];
+            }
+            c.pools.truncate(rng.gen_range(1..=2).max(if c.nu6_3 { 1 } else { 2 }));
             c.max_rewinds = rng.gen_range(0..=1);
             c.out_of_order = false;
             c.steps = rng.gen_range(2..6);
